@@ -129,30 +129,53 @@ func c14Build(slots []c14Slot, part map[string]bool, issig bool) (*c14Session, e
 		s.builders = append(s.builders, b)
 		s.pks = append(s.pks, k.Pk)
 	}
+	if c14Second {
+		// a complete earlier exchange on the same builders (up to the user's second message), after which the
+		// user resets the builders (no keyshare commitment set) and starts the exchange that counts
+		c14Second = false
+		s0 := *s
+		defer func() { c14Second = true }()
+		if err := s0.exchange(slots, part, issig); err != nil {
+			return nil, fmt.Errorf("earlier exchange on the same builders: %w", err)
+		}
+		for i, b := range s.builders {
+			if part[slots[i].key] {
+				b.SetProofPCommitment(nil)
+			}
+		}
+	}
+	return s, s.exchange(slots, part, issig)
+}
+
+// c14Second: sessions whose builders already went through a complete exchange and were reset.
+var c14Second bool
+
+// exchange runs the user's side of the protocol on s.builders up to the second message.
+func (s *c14Session) exchange(slots []c14Slot, part map[string]bool, issig bool) error {
 	var err error
 	s.rand, err = NewProofRandomizers()
 	if err != nil {
-		return nil, err
+		return err
 	}
 	if c14Retry {
 		// a first attempt that got no further than the user's commitment request (message lost): the
 		// user starts over on the same builders with fresh randomisers
 		r0, err := NewProofRandomizers()
 		if err != nil {
-			return nil, err
+			return err
 		}
 		if _, _, err := KeyshareUserCommitmentRequest(s.builders, r0, s.keys); err != nil {
-			return nil, fmt.Errorf("KeyshareUserCommitmentRequest (abandoned attempt): %w", err)
+			return fmt.Errorf("KeyshareUserCommitmentRequest (abandoned attempt): %w", err)
 		}
 	}
 	s.commReq, s.hashInput, err = KeyshareUserCommitmentRequest(s.builders, s.rand, s.keys)
 	if err != nil {
-		return nil, fmt.Errorf("KeyshareUserCommitmentRequest: %w", err)
+		return fmt.Errorf("KeyshareUserCommitmentRequest: %w", err)
 	}
 	var comms []*ProofPCommitment
 	s.kssRand, comms, err = NewKeyshareCommitments(s.kssSec, s.pks)
 	if err != nil {
-		return nil, fmt.Errorf("NewKeyshareCommitments: %w", err)
+		return fmt.Errorf("NewKeyshareCommitments: %w", err)
 	}
 	for i, b := range s.builders {
 		if part[slots[i].key] {
@@ -161,11 +184,11 @@ func c14Build(slots []c14Slot, part map[string]bool, issig bool) (*c14Session, e
 	}
 	s.respReq, s.challenge, err = KeyshareUserResponseRequest(s.builders, s.rand, s.hashInput, vfContext, vfNonce, issig)
 	if err != nil {
-		return nil, fmt.Errorf("KeyshareUserResponseRequest: %w", err)
+		return fmt.Errorf("KeyshareUserResponseRequest: %w", err)
 	}
 	// (the request is used as the library returns it - including the session context it must carry for
 	// the server to compute the same challenge)
-	return s, nil
+	return nil
 }
 
 func (s *c14Session) name() string {
@@ -196,7 +219,7 @@ func c14KeyTuples(n int, keys []string) [][]string {
 func TestVerifC14Honest(t *testing.T) {
 	r := vkit.Start(t, "C14", "honest-exchange", 240*time.Second, 1500*time.Second)
 	defer r.Finish()
-	r.Rule = "builder lists of length 1..L over {disclosure, issuance} + fixed lists with non-revocation / range / random-blind members x every key tuple over {k1024a,k1024b,k2048} x every non-empty subset of the used keys participating (the key table holds key objects equal in value to, but distinct from, the builders' keys) x {disclosure, signature session (lists without issuance)}; every third scenario as a second attempt on builders that already went through an abandoned commitment request; non-trivial = distinct scenario; oracle: no error, ProofP.C == user's challenge, the merged list verifies with labels (participating members 'kss', others ''), for total secret = user + server share"
+	r.Rule = "builder lists of length 1..L over {disclosure, issuance} + fixed lists with non-revocation / range / random-blind members x every key tuple over {k1024a,k1024b,k2048} x every non-empty subset of the used keys participating (the key table holds key objects equal in value to, but distinct from, the builders' keys) x {disclosure, signature session (lists without issuance)}; every third scenario as a second attempt on builders that already went through an abandoned commitment request, every third on builders that went through a complete earlier exchange and were reset (SetProofPCommitment(nil)); non-trivial = distinct scenario; oracle: no error, ProofP.C == user's challenge, the merged list verifies with labels (participating members 'kss', others ''), for total secret = user + server share"
 	vfInstallEnv(t, "C14/honest", r.Seed)
 	L := vkit.Pick(3, 4)
 	keys := []string{"k1024a", "k1024b", "k2048"}
@@ -264,10 +287,11 @@ func TestVerifC14Honest(t *testing.T) {
 				}
 				// every third scenario is run as a retry after an abandoned first attempt on the same builders
 				c14Retry = r.Evaluations%3 == 2
+				c14Second = r.Evaluations%3 == 1 // every third scenario: the builders went through a complete earlier exchange and were reset
 				retried := c14Retry
 				r.Eval()
 				s, err := c14Build(sl, part, issig)
-				c14Retry = false
+				c14Retry, c14Second = false, false
 				if err != nil {
 					// a 1024-bit key with an oversized secret is the one documented refusal; our secrets are 120 bits
 					r.Violate("C14|honest-exchange-failed|user-side", fmt.Sprintf("%v part=%v: %v", sl, part, err), fmt.Sprint(sl, part))
